@@ -417,6 +417,17 @@ impl<'a> VisitMut for Rw<'a> {
                     *t = parse_quote!(Q);
                     return;
                 }
+                if p.segments.len() >= 2 {
+                    let n = p.segments.len();
+                    let qn = format!("{}::{}", p.segments[n - 2].ident, lname);
+                    if let Some(rep) = self.opts.type_map.get(&qn) {
+                        if let Ok(nt) = syn::parse_str::<syn::Type>(rep) {
+                            self.fire("R-TY.map");
+                            *t = nt;
+                            return;
+                        }
+                    }
+                }
                 if let Some(rep) = self.opts.type_map.get(&lname) {
                     if let Ok(nt) = syn::parse_str::<syn::Type>(rep) {
                         self.fire("R-TY.map");
@@ -605,13 +616,28 @@ impl<'a> VisitMut for Rw<'a> {
             }
             Expr::Path(p) if p.qself.is_none() => {
                 let segs: Vec<String> = p.path.segments.iter().map(|s| s.ident.to_string()).collect();
+                if segs.len() >= 3 {
+                    // mod::Type::assoc -> MappedType::assoc
+                    let qn = format!("{}::{}", segs[segs.len() - 3], segs[segs.len() - 2]);
+                    if let Some(rep) = self.opts.type_map.get(&qn) {
+                        let id = syn::Ident::new(rep, Span::call_site());
+                        let last = p.path.segments.last().unwrap().clone();
+                        self.fire("R-TY.map");
+                        *e = parse_quote!(#id::#last);
+                        return;
+                    }
+                }
                 if segs.len() == 2 && segs[0] == "uc" {
                     match self.uc.get(&segs[1]).and_then(|v| parse_float(v)) {
                         Some((n, d)) => {
                             self.fire("R-UNIT.uc");
                             replacement = Some(qlit_expr(&n, &d));
                         }
-                        None => self.err(format!("uc::{} has no decimal value", segs[1])),
+                        None => {
+                            if self.uc.contains_key(&segs[1]) {
+                                self.err(format!("uc::{} has no decimal value", segs[1]))
+                            }
+                        }
                     }
                 } else if segs.len() == 3 && segs[0] == "si" && segs[2] == "ZERO" {
                     self.fire("R-UNIT.zero");
@@ -635,6 +661,14 @@ impl<'a> VisitMut for Rw<'a> {
                             replacement = Some(qlit_expr("2220446049250313", "10000000000000000000000000000000"));
                         }
                         _ => {}
+                    }
+                } else if segs.len() == 1 && self.opts.extra.contains_key("uc_local") && self.uc.contains_key(&segs[0]) {
+                    match self.uc.get(&segs[0]).and_then(|v| parse_float(v)) {
+                        Some((n, d)) => {
+                            self.fire("R-UNIT.uc");
+                            replacement = Some(qlit_expr(&n, &d));
+                        }
+                        None => self.err(format!("uc constant {} has no decimal value", segs[0])),
                     }
                 } else if segs.len() == 1 {
                     if let Some(c) = self.consts.get(&segs[0]) {
@@ -712,7 +746,7 @@ impl<'a> VisitMut for Rw<'a> {
                         self.fire("R-MACROFN.rename");
                         let args = &c.args;
                         replacement = Some(parse_quote!(#id(#args)));
-                    } else if segs.len() >= 2 && (segs[0] == "utils" || segs[0] == "crate" || segs[0] == "super") {
+                    } else if segs.len() >= 2 && (segs[0] == "utils" || segs[0] == "crate" || segs[0] == "super" || segs[0] == "uc") {
                         // strip module qualification: utils::f(..) -> f(..)
                         let id = p.path.segments.last().unwrap().clone();
                         let args = &c.args;
@@ -1187,7 +1221,7 @@ fn process_fn(req: &ItemReq, opts: &Opts, file: &syn::File, uc: &BTreeMap<String
     if let Some(st) = found.self_ty {
         match nominal(st) {
             Some(n) if req.kind != "traitfn" => {
-                impl_of = Some(n);
+                impl_of = Some(opts.extra.get("impl_as").cloned().unwrap_or(n));
             }
             _ => {
                 // impl on Vec<T> / [T] / &[T]: free function with `self_`
@@ -1340,6 +1374,9 @@ fn process_type(req: &ItemReq, opts: &Opts, file: &syn::File, uc: &BTreeMap<Stri
             };
             s.attrs = filter_derives(&s.attrs, &keep);
             s.vis = parse_quote!(pub);
+            if let Some(r) = &opts.rename {
+                s.ident = syn::Ident::new(r, Span::call_site());
+            }
             match &mut s.fields {
                 syn::Fields::Named(n) => {
                     let fields: Vec<syn::Field> = n
